@@ -6,8 +6,6 @@
 package verifrt
 
 import (
-	"sync"
-	"path/filepath"
 	"archive/zip"
 	"bytes"
 	"encoding/csv"
@@ -15,10 +13,12 @@ import (
 	"fmt"
 	"math"
 	"os"
+	"path/filepath"
 	"reflect"
 	"runtime/debug"
 	"strconv"
 	"strings"
+	"sync"
 	"time"
 
 	gtfsrt "github.com/jamespfennell/gtfs/proto"
